@@ -11,7 +11,8 @@
 EXTENDS Naturals, Sequences, FiniteSets, SequencesExt, TLC
 
 CONSTANTS Producers,     \* producer ids (one per subchannel)
-          MaxSteps       \* bound on transport pause/resume signals
+          MaxSteps,      \* bound on transport pause/resume signals
+          MaxQueued      \* records the application may hand to Outbound (never acked here): what _queued_unsent re-sends
 
 VARIABLES
   \* ---- outbound
@@ -24,6 +25,8 @@ VARIABLES
   turn,          \* the producer whose resumeProducing() is currently executing (re-entrant actions are its doing), or "-"
   turns,         \* [Producers -> number of turns received since the last drain started]
   steps,
+  queued,        \* Len(Outbound._outbound_queue)
+  unsent,        \* Len(Outbound._queued_unsent): still to be (re)sent on the current connection
   internal,
   \* ---- inbound
   open,          \* subchannels (same ids as producers) currently open
@@ -32,17 +35,17 @@ VARIABLES
   iconn,         \* Inbound has a connection
   cpaused,       \* that connection's pauseProducing() is in force (we told the L2 transport to stop reading)
   last
-vars == <<paused, conn, deque, pset, uset, sig, depth, turn, turns, steps, internal, open, wantPause, ipaused, iconn, cpaused, last>>
+vars == <<paused, conn, deque, pset, uset, sig, depth, turn, turns, steps, queued, unsent, internal, open, wantPause, ipaused, iconn, cpaused, last>>
 
 Registered == {deque[i] : i \in 1..Len(deque)}
 
 Init == /\ paused = TRUE /\ conn = FALSE /\ deque = <<>> /\ pset = {} /\ uset = {} /\ sig = [p \in Producers |-> "none"]
-        /\ depth = 0 /\ turn = "-" /\ turns = [p \in Producers |-> 0] /\ steps = 0 /\ internal = <<>>
+        /\ depth = 0 /\ turn = "-" /\ turns = [p \in Producers |-> 0] /\ steps = 0 /\ queued = 0 /\ unsent = 0 /\ internal = <<>>
         /\ open = Producers /\ wantPause = {} /\ ipaused = {} /\ iconn = FALSE /\ cpaused = FALSE
         /\ last = <<"Init", "-">>
 
 OutUnch == UNCHANGED <<open, wantPause, ipaused, iconn, cpaused>>
-InUnch == UNCHANGED <<paused, conn, deque, pset, uset, sig, depth, turn, turns, steps, internal>>
+InUnch == UNCHANGED <<paused, conn, deque, pset, uset, sig, depth, turn, turns, steps, queued, unsent, internal>>
 
 \* Between two iterations of the loop no foreign code runs: while a loop is on the stack, the transport, the
 \* application and the subchannels can only act from inside the turn of the producer that was just woken.
@@ -56,7 +59,7 @@ DoPause == /\ paused' = TRUE
 TransportPause == /\ conn /\ steps < MaxSteps /\ CanAct
                   /\ IF paused THEN UNCHANGED <<paused, pset, uset, sig>> ELSE DoPause
                   /\ steps' = steps + 1 /\ last' = <<"TransportPause", turn>>
-                  /\ UNCHANGED <<conn, deque, depth, turn, turns, internal>> /\ OutUnch
+                  /\ UNCHANGED <<conn, deque, depth, turn, turns, queued, unsent, internal>> /\ OutUnch
 
 \* ---- Outbound.resumeProducing(): start (or re-enter) the wake-up loop
 TransportResume == /\ conn /\ steps < MaxSteps /\ CanAct
@@ -65,29 +68,37 @@ TransportResume == /\ conn /\ steps < MaxSteps /\ CanAct
                            /\ turns' = IF depth = 0 THEN [p \in Producers |-> 0] ELSE turns
                            /\ turn' = "-"      \* the (nested) loop runs now; nothing else can act until it wakes someone
                    /\ steps' = steps + 1 /\ last' = <<"TransportResume", turn>>
-                   /\ UNCHANGED <<conn, deque, pset, uset, sig, internal>> /\ OutUnch
+                   /\ UNCHANGED <<conn, deque, pset, uset, sig, queued, unsent, internal>> /\ OutUnch
 
 \* one iteration of the innermost loop: `while not self._paused:` ... _get_next_unpaused_producer
 LoopStep ==
   /\ depth > 0
-  /\ IF paused \/ pset = {}
+  /\ IF ~paused /\ unsent > 0
+     THEN \* `if self._queued_unsent: send one; continue` - and the transport may say stop from inside send_record()
+          \E full \in BOOLEAN :
+            /\ (full => steps < MaxSteps)
+            /\ unsent' = unsent - 1
+            /\ IF full THEN DoPause /\ steps' = steps + 1 ELSE UNCHANGED <<paused, pset, uset, sig, steps>>
+            /\ last' = <<"LoopSend", IF full THEN "full" ELSE "-">>
+            /\ UNCHANGED <<deque, depth, turn, turns, queued, internal>>
+     ELSE IF paused \/ pset = {}
      THEN \* the loop ends (paused again, or nobody left to wake): return to the caller
           /\ depth' = depth - 1 /\ turn' = "-"
           /\ last' = <<"LoopEnd", "-">>
-          /\ UNCHANGED <<paused, deque, pset, uset, sig, turns, internal>>
+          /\ UNCHANGED <<paused, deque, pset, uset, sig, turns, steps, queued, unsent, internal>>
      ELSE LET p == Head(deque) IN
           IF p \notin pset
           THEN \* assert p in self._paused_producers
                /\ internal' = Append(internal, "assert:_get_next_unpaused_producer") /\ depth' = 0 /\ turn' = "-"
                /\ last' = <<"LoopAssert", p>>
-               /\ UNCHANGED <<paused, deque, pset, uset, sig, turns>>
+               /\ UNCHANGED <<paused, deque, pset, uset, sig, turns, steps, queued, unsent>>
           ELSE /\ deque' = Tail(deque) \o <<p>>
                /\ pset' = pset \ {p} /\ uset' = uset \cup {p}
                /\ sig' = [sig EXCEPT ![p] = "resume"] /\ turn' = p
                /\ turns' = [turns EXCEPT ![p] = @ + 1]
                /\ last' = <<"LoopStep", p>>
-               /\ UNCHANGED <<paused, depth, internal>>
-  /\ UNCHANGED <<conn, steps>> /\ OutUnch
+               /\ UNCHANGED <<paused, depth, steps, queued, unsent, internal>>
+  /\ UNCHANGED conn /\ OutUnch
 
 \* ---- registration (possibly from inside a producer's turn)
 Register(p) == /\ p \notin Registered /\ p \in open /\ CanAct
@@ -95,28 +106,36 @@ Register(p) == /\ p \notin Registered /\ p \in open /\ CanAct
                /\ IF paused THEN pset' = pset \cup {p} /\ uset' = uset /\ sig' = [sig EXCEPT ![p] = "pause"]
                   ELSE uset' = uset \cup {p} /\ pset' = pset /\ sig' = sig
                /\ last' = <<"Register", p>>
-               /\ UNCHANGED <<paused, conn, depth, turn, turns, steps, internal>> /\ OutUnch
+               /\ UNCHANGED <<paused, conn, depth, turn, turns, steps, queued, unsent, internal>> /\ OutUnch
+\* the application writes (Manager._queue_and_send): kept for re-sending; behind whatever still waits, else straight out
+AppRecord == /\ queued < MaxQueued /\ CanAct
+             /\ queued' = queued + 1
+             /\ unsent' = IF conn /\ unsent > 0 THEN unsent + 1 ELSE unsent
+             /\ last' = <<"AppRecord", turn>>
+             /\ UNCHANGED <<paused, conn, deque, pset, uset, sig, depth, turn, turns, steps, internal>> /\ OutUnch
 Unregister(p) == /\ p \in Registered /\ CanAct
                  /\ deque' = SelectSeq(deque, LAMBDA q : q # p)
                  /\ pset' = pset \ {p} /\ uset' = uset \ {p}
                  /\ sig' = [sig EXCEPT ![p] = "none"]
                  /\ last' = <<"Unregister", p>>
-                 /\ UNCHANGED <<paused, conn, depth, turn, turns, steps, internal>> /\ OutUnch
+                 /\ UNCHANGED <<paused, conn, depth, turn, turns, steps, queued, unsent, internal>> /\ OutUnch
 
 \* ---- connections
 \* use_connection: registerProducer on the new transport, then resumeProducing()
 UseConnection == /\ ~conn /\ depth = 0
                  /\ conn' = TRUE /\ iconn' = TRUE
                  /\ paused' = FALSE /\ depth' = 1 /\ turns' = [p \in Producers |-> 0]
+                 /\ unsent' = queued                          \* _queued_unsent.extend(_outbound_queue)
                  /\ cpaused' = (ipaused # {})                 \* Inbound.use_connection: carry the pause over
                  /\ last' = <<"UseConnection", "-">>
-                 /\ UNCHANGED <<deque, pset, uset, sig, turn, steps, internal, open, wantPause, ipaused>>
+                 /\ UNCHANGED <<deque, pset, uset, sig, turn, steps, queued, internal, open, wantPause, ipaused>>
 \* stop_using_connection: pauseProducing()
 StopUsingConnection == /\ conn /\ depth = 0
                        /\ conn' = FALSE /\ iconn' = FALSE /\ cpaused' = FALSE
                        /\ IF paused THEN UNCHANGED <<paused, pset, uset, sig>> ELSE DoPause
+                       /\ unsent' = 0                           \* _queued_unsent.clear()
                        /\ last' = <<"StopUsingConnection", "-">>
-                       /\ UNCHANGED <<deque, depth, turn, turns, steps, internal, open, wantPause, ipaused>>
+                       /\ UNCHANGED <<deque, depth, turn, turns, steps, queued, internal, open, wantPause, ipaused>>
 
 \* ---- inbound: a subchannel's application pauses / resumes / stops its transport
 SubPause(s) == /\ s \in open /\ s \notin wantPause /\ CanAct
@@ -143,9 +162,9 @@ SubClosed(s) == /\ s \in open /\ CanAct
                         /\ sig' = [sig EXCEPT ![s] = "none"]
                    ELSE UNCHANGED <<deque, pset, uset, sig>>
                 /\ last' = <<"SubClosed", s>>
-                /\ UNCHANGED <<iconn, paused, conn, depth, turn, turns, steps, internal>>
+                /\ UNCHANGED <<iconn, paused, conn, depth, turn, turns, steps, queued, unsent, internal>>
 
-Next == TransportPause \/ TransportResume \/ LoopStep \/ UseConnection \/ StopUsingConnection
+Next == TransportPause \/ TransportResume \/ LoopStep \/ UseConnection \/ StopUsingConnection \/ AppRecord
         \/ (\E p \in Producers : Register(p) \/ Unregister(p) \/ SubPause(p) \/ SubResume(p) \/ SubClosed(p))
 Spec == Init /\ [][Next]_vars /\ WF_vars(LoopStep)
 
@@ -162,6 +181,8 @@ AllResumedAfterDrain == (~paused /\ depth = 0 /\ conn) => pset = {}
 \* ... each getting a turn in rotation: whoever just had a turn goes to the back of the line
 RotationFair == [][(last'[1] = "LoopStep") => (Len(deque') > 0 /\ deque'[Len(deque')] = last'[2])]_vars
 NoInternal == internal = <<>>
+\* nothing waits to be re-sent without a connection, and never more than is kept
+UnsentSane == (~conn => unsent = 0) /\ unsent <= queued
 \* inbound: the L2 connection is paused exactly while some open subchannel's application wants a pause
 InboundExact == iconn => (cpaused <=> (wantPause # {}))
 InboundCarried == ipaused = wantPause
